@@ -28,14 +28,52 @@ type blobAdapter struct {
 	backend *s3mem.Backend
 	srv     *verifc18.FlakyServer
 	ep      *ruleSetEndpoint
-	p       *provider
-	ctx     context.Context //nolint:containedctx
+	// every second case configures the bucket twice, with two prefixes (two entries under buckets with
+	// the same url): the blob of a source lives below one of them
+	two    bool
+	pre    [2]*ruleSetEndpoint
+	prefix map[string]string
+	p      *provider
+	ctx    context.Context //nolint:containedctx
+}
+
+var blobPrefixes = [2]string{"teamA-", "teamB-"} //nolint:gochecknoglobals
+
+// key is the name of the blob of a source.
+func (a *blobAdapter) key(src string) string {
+	if !a.two {
+		return src
+	}
+
+	pfx, ok := a.prefix[src]
+	if !ok {
+		pfx = blobPrefixes[len(a.prefix)%2]
+		a.prefix[src] = pfx
+	}
+
+	return pfx + src
 }
 
 func (a *blobAdapter) Prov() string { return "cloudblob" }
 func (a *blobAdapter) Kind() string { return "pollN" }
 
 func (a *blobAdapter) SrcOf(id string) string {
+	if a.two {
+		// the id is <key>@<id of the endpoint>: the source is named by the key alone
+		key, _, ok := strings.Cut(id, "@")
+		if !ok {
+			return ""
+		}
+
+		for _, pfx := range blobPrefixes {
+			if src, ok := strings.CutPrefix(key, pfx); ok {
+				return src
+			}
+		}
+
+		return ""
+	}
+
 	key, ok := strings.CutSuffix(id, "@"+a.ep.ID())
 	if !ok {
 		return ""
@@ -50,7 +88,7 @@ func (a *blobAdapter) Close() {
 	}
 }
 
-func (a *blobAdapter) Reset(_ *verifc18.Run, rec *verifc18.Recorder, _ []string) error {
+func (a *blobAdapter) Reset(run *verifc18.Run, rec *verifc18.Recorder, _ []string) error {
 	if a.srv == nil {
 		os.Setenv("AWS_ACCESS_KEY_ID", "test")
 		os.Setenv("AWS_SECRET_ACCESS_KEY", "test")
@@ -75,7 +113,11 @@ func (a *blobAdapter) Reset(_ *verifc18.Run, rec *verifc18.Recorder, _ []string)
 		}
 
 		a.ep = &ruleSetEndpoint{URL: u}
+		a.pre = [2]*ruleSetEndpoint{{URL: u, Prefix: blobPrefixes[0]}, {URL: u, Prefix: blobPrefixes[1]}}
 	}
+
+	a.two = len(run.Salt) > 0 && (run.Salt[len(run.Salt)-1]-'0')%2 == 1
+	a.prefix = map[string]string{}
 
 	if err := a.srv.Up(); err != nil {
 		return err
@@ -103,12 +145,12 @@ func (a *blobAdapter) Apply(st verifc18.Step, body []byte, ctype string) error {
 	switch st.Op {
 	case "refuse":
 	case "set":
-		_, err := a.backend.PutObject(bucketName, st.Src, map[string]string{"Content-Type": ctype},
+		_, err := a.backend.PutObject(bucketName, a.key(st.Src), map[string]string{"Content-Type": ctype},
 			bytes.NewReader(body), int64(len(body)))
 
 		return err
 	case "remove":
-		_, err := a.backend.DeleteObject(bucketName, st.Src)
+		_, err := a.backend.DeleteObject(bucketName, a.key(st.Src))
 
 		return err
 	case "fault":
@@ -127,7 +169,16 @@ func (a *blobAdapter) Apply(st verifc18.Step, body []byte, ctype string) error {
 }
 
 func (a *blobAdapter) Provider(run *verifc18.Run, mode string) error {
-	run.Step("*", "poll", "", mode, func() { _ = a.p.watchChanges(a.ctx, a.ep) })
+	run.Step("*", "poll", "", mode, func() {
+		if a.two {
+			_ = a.p.watchChanges(a.ctx, a.pre[0])
+			_ = a.p.watchChanges(a.ctx, a.pre[1])
+
+			return
+		}
+
+		_ = a.p.watchChanges(a.ctx, a.ep)
+	})
 
 	return nil
 }
